@@ -293,7 +293,11 @@ func (p *Packer) packWalkFn(root, src, dst string, tarW *tar.Writer, meta *Meta,
 			// written and when followed through any other symlinks on the
 			// way (".." after a component that is a symlink is applied to
 			// wherever that symlink leads).
-			ok, err := p.validSymlink(root, path, target)
+			// The link is judged as written at the place it gets in the
+			// slug, which differs from its own path while walking a
+			// dereferenced directory: a relative target that is fine where
+			// the link lives may climb out of the slug from there.
+			ok, err := p.validSymlink(root, strings.Replace(path, src, dst, 1), target)
 			if ok && !p.linkResolvesWithin(root, path) {
 				ok, err = false, &IllegalSlugError{
 					Err: fmt.Errorf(
